@@ -80,7 +80,8 @@ func kindFamily(k int) string {
 	switch kinds[k].name {
 	case "Ed25519":
 		return "ed25519"
-	case "RSA-1024":
+	}
+	if strings.HasPrefix(kinds[k].name, "RSA-") {
 		return "rsa"
 	}
 	return "ecdsa"
